@@ -153,6 +153,52 @@ def _templates(express, op):
     return t()
 
 
+def run_placeholder(case):
+    """An Interest with ApplicationParameters whose name already carries the digest placeholder (at a drawn position): the Data
+    named like the Interest ON THE WIRE completes it."""
+    from ndn.security import DigestSha256Signer
+    from .. import pkt as P
+    r = Result()
+    fe = case['frontend']
+    sim = AppSim(fe)
+    sim.start()
+    try:
+        comps = [net.comp(x) for x in case['name']]
+        pos = case['pos'] % (len(comps) + 1)
+        name = comps[:pos] + [T.enc_tlv(2, b'\x00' * 32)] + comps[pos:]
+        others = [sim.express([net.comp('o'), net.comp(str(i))], lifetime=4000, vlat=0.0, verdict=_verdict(fe, True)) for i in range(case['others'])]
+        h = sim.express(name, lifetime=200, vlat=0.0, verdict=_verdict(fe, True), app_param=b'pp',
+                        signer=DigestSha256Signer(for_interest=True) if (fe == 'v2' or case['signed']) else None)
+        if h.express_error is not None:
+            return r.bad(f'C03/{fe}/placeholder/express-raised/{type(h.express_error).__name__}', repr(h.express_error)[:200])
+        try:
+            wire_name = P.strict_interest(h.wire)['name']
+        except T.Malformed as e:
+            return r.bad(f'C03/{fe}/placeholder/interest-malformed', str(e))
+        sim.vl.advance(case['delay'] / 1000)
+        sim.deliver(net.data_wire(wire_name, content=b'answer'), 'task')
+        sim.vl.advance(0.5)
+        lab = _outcome_label(h)
+        if lab != 'data':
+            r.bad(f'C03/{fe}/placeholder/wrong-outcome/{lab}/expected=data', f'placeholder at {pos} of {len(comps)} components; wire name '
+                  f'{[c.hex()[:16] for c in wire_name]}')
+        for o in others:
+            if o.done_count:
+                r.bad(f'C03/{fe}/placeholder/bystander-finished', '')
+    finally:
+        sim.finish()
+        sim.close()
+    r.key = (fe, case['pos'] % (len(case['name']) + 1), len(case['name']), case['signed'])
+    r.classes = (fe, 'caller-supplied-placeholder')
+    return r
+
+
+def _placeholder_case():
+    return st.fixed_dictionaries({'frontend': st.sampled_from(['v2', 'legacy']), 'name': st.lists(st.sampled_from(ALPHA), min_size=1, max_size=3),
+                                  'pos': st.integers(0, 3), 'others': st.integers(0, 2), 'signed': st.booleans(),
+                                  'delay': st.sampled_from([0, 1, 50])})
+
+
 def _case(frontend):
     second = st.one_of(st.none(), st.none(),
                        st.fixed_dictionaries({'name': st.lists(st.sampled_from(ALPHA[:2]), min_size=1, max_size=2),
@@ -535,6 +581,8 @@ def _max_concurrent_related(ents):
 
 
 SUBCHECKS = {
+    'placeholder': SubCheck(run_placeholder, strategy=lambda tier: _placeholder_case(), examples={'quick': 150, 'thorough': 2000},
+                            note='Interests with ApplicationParameters whose name carries the digest placeholder at any position'),
     'v2': SubCheck(run_case, strategy=lambda tier: _case('v2'), examples={'quick': 2500, 'thorough': 80000}),
     'legacy': SubCheck(run_case, strategy=lambda tier: _case('legacy'), examples={'quick': 2500, 'thorough': 80000}),
 }
